@@ -24,6 +24,8 @@ func init() {
 			{ID: "C12.R4", Floor: 8, Doc: "date/time/timestamp units, floor and origin", Run: c12r4},
 			{ID: "C12.R5", Floor: 10, Doc: "collection / tuple / UDT framing order", Run: c12r5},
 			{ID: "C12.R7", Floor: 3, Doc: "encBigInt2C boundary handling: sign byte for positives, redundant 0xff for negatives", Run: c12r7},
+			{ID: "C12.R8", Floor: 2, Doc: "varint trimming keeps the sign byte when it is needed (=C02.R8)", Run: c02r8},
+			{ID: "C12.R9", Floor: 10, Doc: "collection / tuple / UDT writers emit length -1 exactly for a nil encoding (=C02.R4)", Run: c02r4},
 			{ID: "C12.R6", Floor: 6, Doc: "vint coding agrees with the specification on its finite domains", Run: c12r6},
 		},
 	})
